@@ -265,6 +265,9 @@ protected:
       }
     });
 
+    detail::dynamic_check(chosen_trampoline != nullptr,
+                          "Could not register callback: no free callback slots");
+
     return reinterpret_cast<T_PointerType>(chosen_trampoline);
   }
 
